@@ -55,12 +55,15 @@ type Repo struct {
 	// Subinclude makes every package subinclude //defs:defs and define its genrules through the
 	// wrapper function declared there (targets are then only discovered after the subinclude is built).
 	Subinclude bool `json:",omitempty"`
+	// BrokenDefs (only with Subinclude): "syntax" = the subincluded file does not parse,
+	// "build" = the target producing it fails to build. Either way no package can be parsed.
+	BrokenDefs string `json:",omitempty"`
 }
 
 // Clone deep-copies the repository model.
 func (r *Repo) Clone() *Repo {
 	c := &Repo{Pkgs: append([]string{}, r.Pkgs...), Files: append([]RFile{}, r.Files...), Config: r.Config,
-		BrokenPkgs: append([]string{}, r.BrokenPkgs...), Subinclude: r.Subinclude}
+		BrokenPkgs: append([]string{}, r.BrokenPkgs...), Subinclude: r.Subinclude, BrokenDefs: r.BrokenDefs}
 	for _, t := range r.Targets {
 		tt := *t
 		tt.Srcs = append([]RSrc{}, t.Srcs...)
@@ -354,6 +357,12 @@ func (r *Repo) Buildable() map[string]bool {
 	for _, t := range r.Targets {
 		ok[t.Label()] = visit(t.Label())
 	}
+	if r.Subinclude && r.BrokenDefs != "" {
+		for l := range ok {
+			ok[l] = false
+		}
+		return ok
+	}
 	// a node first reached while its cycle partner was "visiting" may have been marked good too early
 	// only if it is not itself on the cycle – re-run until stable to be safe
 	for changed := true; changed; {
@@ -482,8 +491,18 @@ func (r *Repo) TreeFiles() map[string]string {
 		m[filepath.Join(f.Pkg, f.Path)] = f.Content
 	}
 	if r.Subinclude {
-		m["defs/BUILD"] = "filegroup(name=\"defs\", srcs=[\"defs.build_defs\"], visibility=[\"PUBLIC\"])\n"
-		m["defs/defs.build_defs"] = "def vgenrule(name:str, srcs:list, outs:list, cmd:str, visibility:list):\n    return genrule(name=name, srcs=srcs, outs=outs, cmd=cmd, visibility=visibility)\n"
+		defs := "def vgenrule(name:str, srcs:list, outs:list, cmd:str, visibility:list):\n    return genrule(name=name, srcs=srcs, outs=outs, cmd=cmd, visibility=visibility)\n"
+		switch r.BrokenDefs {
+		case "syntax":
+			m["defs/BUILD"] = "filegroup(name=\"defs\", srcs=[\"defs.build_defs\"], visibility=[\"PUBLIC\"])\n"
+			m["defs/defs.build_defs"] = defs + "this is ( not valid\n"
+		case "build":
+			m["defs/BUILD"] = "genrule(name=\"defs\", srcs=[\"defs.in\"], outs=[\"defs.build_defs\"], cmd=\"exit 3\", visibility=[\"PUBLIC\"])\n"
+			m["defs/defs.in"] = defs
+		default:
+			m["defs/BUILD"] = "filegroup(name=\"defs\", srcs=[\"defs.build_defs\"], visibility=[\"PUBLIC\"])\n"
+			m["defs/defs.build_defs"] = defs
+		}
 	}
 	return m
 }
